@@ -769,6 +769,14 @@ func (fv *FuncVerifier) bitop(st *State, op token.Token, x, y Term, xt, yt, rt t
 			if ky == 0 {
 				return I(0)
 			}
+			// single bit 2^k: ((x div 2^k) mod 2) * 2^k  (x non-negative: unsigned or a flag word)
+			for k := 0; k < 62; k++ {
+				if ky == int64(1)<<k {
+					if _, signed, _ := intBits(xt); !signed {
+						return Mul(app(SInt, "mod", app(SInt, "div", x, IStr(pow2(k))), I(2)), IStr(pow2(k)))
+					}
+				}
+			}
 		}
 	case token.OR:
 		if yconst && ky == 0 {
